@@ -15,7 +15,16 @@ go build -tags verif -o bin/c18_map ./props/c18/mapdiff 2> $B/build.log || { cat
 props/mcrun.sh C18 --build || exit 2
 [ "${1:-}" = "--build" ] && exit 0
 tier="${1:-quick}"
-rm -f $B/mc.json $B/map.json
+rm -f $B/mc.json $B/mc.race.json $B/map.json
 VERIF_PART=$PWD/$B/mc.json VERIF_PART_NAME=concurrent bin/c18_mc $tier || { echo "INFRASTRUCTURE ERROR: concurrent part failed" >&2; exit 2; }
 VERIF_PART=$PWD/$B/map.json VERIF_PART_NAME=typed-map bin/c18_map $tier || { echo "INFRASTRUCTURE ERROR: map part failed" >&2; exit 2; }
-exec bin/vxmerge C18 $tier $B/mc.json $B/map.json
+# free-running -race side pass over the concurrent scenario bodies (built by mcrun.sh --build)
+GORACE="exitcode=66 halt_on_error=1" VERIF_PART=$PWD/$B/mc.race.json VERIF_PART_NAME=race-pass bin/c18_race $tier > $B/race.log 2>&1; rc=$?
+if [ $rc = 66 ]; then
+  head -60 $B/race.log >&2
+  printf '{"name":"race-pass","cov":{"race_pass":"DATA RACE reported"},"samples":[],"assumptions":[],"viols":[{"signature":"data-race","detail":"the Go race detector reported a data race in a free-running execution of the scenario bodies (first report in .build/c18/race.log)","replay":{"mode":"race"}}],"known":[],"capped":[],"states":1,"transitions":1,"validated":1,"wall":0}' > $B/mc.race.json
+elif [ $rc != 0 ]; then
+  tail -5 $B/race.log >&2
+  printf '{"name":"race-pass","cov":{"race_pass":"not completed: the free-running executions crashed (exit status %s)"},"samples":[],"assumptions":[],"viols":[],"known":[],"capped":["race pass not completed"],"states":0,"transitions":0,"validated":0,"wall":0}' "$rc" > $B/mc.race.json
+fi
+exec bin/vxmerge C18 $tier $B/mc.json $B/map.json $B/mc.race.json
